@@ -8,8 +8,9 @@ import time
 from . import c16, core, report
 
 PARAMS = {
-    'quick': dict(gen_bases=120, size_cap=3072, enum_cap=420, enum_bases=60, sequences=300_000, chunk=5000),
-    'thorough': dict(gen_bases=1500, size_cap=3072, enum_cap=900, enum_bases=700, sequences=4_000_000, chunk=20000),
+    'quick': dict(gen_bases=120, size_cap=3072, enum_cap=420, enum_bases=60, sequences=300_000, chunk=5000, realfs=0.002),
+    'thorough': dict(gen_bases=1500, size_cap=3072, enum_cap=900, enum_bases=700, sequences=4_000_000, chunk=20000,
+                     realfs=0.02),
 }
 
 REAL = ["droop.profile.ElectionProfile: __init__, bltRead (real open/read/decode call sequence), tokenizer, parser, "
@@ -36,8 +37,8 @@ def _work(task):
         _, R, seed, name, base, part, nparts = task
         return c16.work_enumerate(R, seed, name, base, part, nparts)
     if kind == 'seq':
-        _, R, seed, bases, first, count = task
-        return c16.work_sequences(R, seed, bases, first, count)
+        _, R, seed, bases, first, count, realfs = task
+        return c16.work_sequences(R, seed, bases, first, count, realfs)
     _, R, bases = task
     return c16.work_faultfree(R, bases)
 
@@ -58,13 +59,14 @@ def run(R, tier, seed):
             arm.append('enum')
     nseq = P['sequences']
     for first in range(0, nseq, P['chunk']):
-        tasks.append(('seq', R, seed, bases, first, min(P['chunk'], nseq - first)))
+        tasks.append(('seq', R, seed, bases, first, min(P['chunk'], nseq - first), P['realfs']))
         arm.append('seq')
     results = core.fork_map(_work, tasks, timeout=1800.0, what='C16 chunk')
 
     total = c16.new_acc()
     per_arm = {}
     samples = []
+    stub_dis = []
     for a, r in zip(arm, results):
         pa = per_arm.setdefault(a, dict(evaluations=0, outcomes={}, violations=0))
         pa['evaluations'] += r['evals']
@@ -79,8 +81,13 @@ def run(R, tier, seed):
         core.merge_counts(total['probes'], r['probes'])
         total['keys'] |= r['keys']
         total['viol'].extend(r['viol'])
+        stub_dis.extend(r.get('stub_disagreements', []))
         if r['samples'] and len(samples) < 4 and (a == 'seq' or len(samples) < 2):
             samples.extend(r['samples'][:1])
+    if stub_dis:
+        # the stub and the real file system disagree: the harness is wrong, not the package
+        raise core.HarnessError("SimFS disagrees with the real file system on %d reads, e.g. %s" % (
+            len(stub_dis), json.dumps(stub_dis[0])[:400]))
     free = per_arm['free']
     nfree = free['evaluations']
     acc_free = free['outcomes'].get('accepted', 0)
